@@ -161,6 +161,7 @@ func (r *Runtime) ResetSteps() {
 // load — shares the enclosing budget rather than silently refilling it.
 func (r *Runtime) beginEval() func() {
 	r.evalDepth++
+	verifEv(r.Stack, "begin", r.evalDepth, 0, "", "")
 	if r.evalDepth == 1 {
 		r.totalSteps += r.steps
 		r.steps = 0
@@ -171,6 +172,7 @@ func (r *Runtime) beginEval() func() {
 func (r *Runtime) endEval() {
 	if r.evalDepth > 0 {
 		r.evalDepth--
+		verifEv(r.Stack, "end", r.evalDepth, 0, "", "")
 	}
 }
 
@@ -178,6 +180,7 @@ func (r *Runtime) endEval() {
 // to rethrow within a handler-bind handler.
 func (r *Runtime) PushCondition(err *LVal) {
 	r.conditionStack = append(r.conditionStack, err)
+	verifEv(r.Stack, "cpush", len(r.conditionStack), 0, err.Str, "")
 }
 
 // PopCondition removes and returns the top condition from the stack.
@@ -188,6 +191,7 @@ func (r *Runtime) PopCondition() *LVal {
 	}
 	err := r.conditionStack[n-1]
 	r.conditionStack = r.conditionStack[:n-1]
+	verifEv(r.Stack, "cpop", len(r.conditionStack), 0, "", "")
 	return err
 }
 
